@@ -3,6 +3,7 @@ Helper lemmas for property C09, part 6: `glue`, `glue_recursively`, `trace_word`
 never run out of fuel on a valid symbol; what `glue` does to the presence of ridges.
 -/
 import DSymVerif.Proofs.FundGroupBnd
+import DSymVerif.Proofs.FundGroupWInv
 import DSymVerif.Proofs.DSetSym
 
 namespace DSymVerif.FGP
@@ -16,6 +17,9 @@ theorem isReal_zero : isReal zeroR = false := by decide
 /-- facet `(d,i)` of the symbol -/
 def FacetR (ds : DSymData) (d i : Nat) : Prop := 1 ≤ d ∧ d ≤ ds.size ∧ i ≤ ds.dim
 
+/-- the ridge is gone or is opposite to the sentinel (its run ends at a glued mirror) -/
+def ZOrNone (m : OppMap) (k : Ridge) : Prop := oppGet m k = none ∨ ∃ n, oppGet m k = some (zeroR, n)
+
 /-- what one iteration of the `for j` loop of `glue(d,i)` does -/
 structure StepOut (ds : DSymData) (d i j : Nat) (m : OppMap) (res : List Ridge)
     (m' : OppMap) (res' : List Ridge) : Prop where
@@ -25,7 +29,9 @@ structure StepOut (ds : DSymData) (d i j : Nat) (m : OppMap) (res : List Ridge)
   count : realCount m' + res'.length ≤ realCount m + res.length
   frame : ∀ k, Rng ds k → k ≠ (d, i, j) → k ≠ partner ds (d, i, j) →
     (oppGet m' k = none ↔ oppGet m k = none)
-  ext : ∃ l, res' = res ++ l
+  ext : ∃ l, res' = res ++ l ∧ ∀ x ∈ l, Rng ds x → opT ds x.2.1 x.1 = x.1 → ZOrNone m' x
+  winv : WInv ds m → WInv ds m'
+  zstable : ∀ k, Rng ds k → ZOrNone m k → ZOrNone m' k
 
 theorem glueStep_ok {ds : DSymData} (hv : ValidSet ds.dset) {m : OppMap} (hm : BInv ds m)
     {d i j : Nat} (hA : Rng ds (d, i, j)) (res : List Ridge) :
@@ -37,7 +43,8 @@ theorem glueStep_ok {ds : DSymData} (hv : ValidSet ds.dset) {m : OppMap} (hm : B
   simp only
   cases gA : oppGet m (d, i, j) with
   | none =>
-    refine ⟨m, res, rfl, hm, gA, (hm.pres _ hA).1 gA, Nat.le_refl _, fun _ _ _ _ => Iff.rfl, [], by simp⟩
+    refine ⟨m, res, rfl, hm, gA, (hm.pres _ hA).1 gA, Nat.le_refl _, fun _ _ _ _ => Iff.rfl,
+      ⟨[], by simp, fun _ h => by cases h⟩, fun h => h, fun _ _ h => h⟩
   | some p =>
     obtain ⟨X, cA⟩ := p
     simp only
@@ -69,7 +76,9 @@ theorem glueStep_ok {ds : DSymData} (hv : ValidSet ds.dset) {m : OppMap} (hm : B
         have := realCount_remove _ (d, i, j) (isReal_of_rng hA) h2
         show realCount (oppRemove (oppInsert m X (zeroR, cA)) (d, i, j)) + 1 = realCount m
         omega
-      refine ⟨m1, _, rfl, hinv, hgone, by rw [hAA]; exact hgone, ?_, ?_, ?_⟩
+      have hXA : X ≠ (d, i, j) := fun e => hm.nofix _ cA hA (e ▸ gA)
+      refine ⟨m1, _, rfl, hinv, hgone, by rw [hAA]; exact hgone, ?_, ?_, ?_,
+        fun hw => winv_mirror hv hm hw hA hAA gA hext, ?_⟩
       · split <;> simp <;> omega
       · intro k hk kA _
         rw [hext k, if_neg kA]
@@ -77,8 +86,26 @@ theorem glueStep_ok {ds : DSymData} (hv : ValidSet ds.dset) {m : OppMap} (hm : B
         · rw [if_pos kX, kX, sX (kX ▸ hk)]; simp
         · rw [if_neg kX]
       · split
-        · exact ⟨[X], rfl⟩
-        · exact ⟨[], by simp⟩
+        · refine ⟨[X], rfl, ?_⟩
+          intro x hx _ _
+          simp only [List.mem_singleton] at hx
+          subst hx
+          exact Or.inr ⟨cA, by rw [hext, if_neg hXA, if_pos rfl]⟩
+        · exact ⟨[], by simp, fun _ h => by cases h⟩
+      · intro k hk hz
+        by_cases kA : k = (d, i, j)
+        · exact Or.inl (by rw [kA]; exact hgone)
+        · have kX : k ≠ X := by
+            intro e
+            rcases hz with h | ⟨n, h⟩
+            · rw [e, sX (e ▸ hk)] at h; cases h
+            · rw [e, sX (e ▸ hk)] at h
+              have : d = 0 := congrArg (fun p : Ridge × Nat => p.1.1) (Option.some.inj h)
+              have := hA.1
+              omega
+          unfold ZOrNone
+          rw [hext k, if_neg kA, if_neg kX]
+          exact hz
     · -- not a mirror
       rw [if_neg hmir]
       have hAB : (d, i, j) ≠ partner ds (d, i, j) := by
@@ -146,7 +173,8 @@ theorem glueStep_ok {ds : DSymData} (hv : ValidSet ds.dset) {m : OppMap} (hm : B
           have h4 := realCount_remove _ (partner ds (d, i, j)) (isReal_of_rng hBr) gBb
           show realCount (oppRemove (oppRemove mb (d, i, j)) (partner ds (d, i, j))) + 2 = realCount m
           omega
-        refine ⟨m1, _, rfl, hinv, hgA, hgB, ?_, ?_, ?_⟩
+        refine ⟨m1, _, rfl, hinv, hgA, hgB, ?_, ?_, ?_,
+          fun hw => winv_nonmirror hv hm hw hA hAB gA gB hext, ?_⟩
         · split <;> simp <;> omega
         · intro k hk kA kB
           rw [hext k, if_neg kB, if_neg kA]
@@ -157,8 +185,41 @@ theorem glueStep_ok {ds : DSymData} (hv : ValidSet ds.dset) {m : OppMap} (hm : B
             · rw [if_pos kX, kX, sX (kX ▸ hk)]; simp
             · rw [if_neg kX]
         · split
-          · exact ⟨[X], rfl⟩
-          · exact ⟨[], by simp⟩
+          · rename_i hpush
+            refine ⟨[X], rfl, ?_⟩
+            intro x hx hxr hxm
+            simp only [List.mem_singleton] at hx
+            subst hx
+            -- a pushed ridge of the non-mirror branch is not a mirror
+            exfalso
+            apply hpush
+            rw [op_eq hxr.2.2.1 hxr.1 hxr.2.1, ← opT_eq hxr.2.2.1 hxr.1 hxr.2.1, hxm]
+          · exact ⟨[], by simp, fun _ h => by cases h⟩
+        · intro k hk hz
+          by_cases kB : k = partner ds (d, i, j)
+          · exact Or.inl (by rw [kB]; exact hgB)
+          · by_cases kA : k = (d, i, j)
+            · exact Or.inl (by rw [kA]; exact hgA)
+            · have kX : k ≠ X := by
+                intro e
+                rcases hz with h | ⟨n, h⟩
+                · rw [e, sX (e ▸ hk)] at h; cases h
+                · rw [e, sX (e ▸ hk)] at h
+                  have : d = 0 := congrArg (fun p : Ridge × Nat => p.1.1) (Option.some.inj h)
+                  have := hA.1
+                  omega
+              have kY : k ≠ Y := by
+                intro e
+                rcases hz with h | ⟨n, h⟩
+                · rw [e, sY (e ▸ hk)] at h; cases h
+                · rw [e, sY (e ▸ hk)] at h
+                  have : (partner ds (d, i, j)).1 = 0 :=
+                    congrArg (fun p : Ridge × Nat => p.1.1) (Option.some.inj h)
+                  have := hBr.1
+                  omega
+              unfold ZOrNone
+              rw [hext k, if_neg kB, if_neg kA, if_neg kY, if_neg kX]
+              exact hz
 
 /-! ### the whole `for j` loop, `glue` -/
 
@@ -204,7 +265,7 @@ theorem glueFold_ok {ds : DSymData} (hv : ValidSet ds.dset) {d i : Nat} (hd : Fa
       rw [frame2 k hk (fun j' hj' => hne j' (List.mem_cons_of_mem _ hj')), so.frame k hk h1.1 h1.2]
     · intro k hk hn
       exact mono2 k hk (stepOut_mono so k hk hn)
-    · obtain ⟨l1, hl1⟩ := so.ext
+    · obtain ⟨l1, hl1, _⟩ := so.ext
       exact ⟨l1 ++ l2, by rw [hl2, hl1, List.append_assoc]⟩
 
 /-- what `glue(d,i)` does -/
